@@ -8,11 +8,13 @@ so, and then returns / raises as the scenario says.
 """
 # points
 T_OVER_IN, T_UNDER_IN, NEWREQ, ROUTE_PRED, ROUTE_FACTORY, BEFORE_TRAV, ROOT_FACTORY, TRAVERSER, CTX_FOUND, \
-    VIEW_PRED, PERMITS, VIEW, RENDERER, T_UNDER_OUT, T_OVER_OUT, RESP_CB, NEWRESP, FIN_CB, EXCVIEW = range(1, 20)
+    VIEW_PRED, PERMITS, VIEW, RENDERER, T_UNDER_OUT, T_OVER_OUT, RESP_CB, NEWRESP, FIN_CB, EXCVIEW, EXCVIEW_HTTP = range(1, 21)
+DEFAULT_VIEW = 21      # httpexceptions.default_exceptionresponse_view: not instrumented, seen only as the outcome
 POINT_NAMES = {1: 'tween-over-in', 2: 'tween-under-in', 3: 'NewRequest', 4: 'route-predicate', 5: 'route-factory',
                6: 'BeforeTraversal', 7: 'root-factory', 8: 'traverser', 9: 'ContextFound', 10: 'view-predicate',
                11: 'permission', 12: 'view', 13: 'renderer', 14: 'tween-under-out', 15: 'tween-over-out',
-               16: 'response-callback', 17: 'NewResponse', 18: 'finished-callback', 19: 'exception-view'}
+               16: 'response-callback', 17: 'NewResponse', 18: 'finished-callback', 19: 'exception-view',
+               20: 'exception-view-http', 21: 'default-exceptionresponse-view'}
 PLAIN, HTTP, PM, FALSE = 1, 2, 3, 4
 
 import threading
@@ -244,6 +246,14 @@ def excview(exc, request):
     return r
 
 
+def excview_http(exc, request):
+    from pyramid.response import Response
+    hit(request, EXCVIEW_HTTP)
+    r = Response('handled-http')
+    r.headers['X-C13-Src'] = str(EXCVIEW_HTTP)
+    return r
+
+
 def make_request(scn, level, cls=None):
     from pyramid.request import Request
     cls = cls or Request
@@ -253,11 +263,14 @@ def make_request(scn, level, cls=None):
     return r
 
 
-def build_app(with_excview):
+def build_app(mask):
+    """mask: bit 0 exception view for Exception, bit 1 exception view for HTTPException,
+    bit 2 the default exceptionresponse view stays enabled"""
     from pyramid.config import Configurator
+    from pyramid.httpexceptions import HTTPException
     from pyramid.events import NewRequest, BeforeTraversal, ContextFound, NewResponse
     from pyramid.tweens import EXCVIEW as EXCVIEW_TWEEN
-    config = Configurator(exceptionresponse_view=None)
+    config = Configurator() if mask & 4 else Configurator(exceptionresponse_view=None)
     config.set_security_policy(Policy())
     config.add_route_predicate('c13', RoutePred)
     config.add_view_predicate('c13v', ViewPred)
@@ -272,13 +285,15 @@ def build_app(with_excview):
     config.add_subscriber(_subscriber(NEWRESP), NewResponse)
     config.add_tween('harness.c13.app.over_tween_factory', over=EXCVIEW_TWEEN)
     config.add_tween('harness.c13.app.under_tween_factory', under=EXCVIEW_TWEEN)
-    if with_excview:
+    if mask & 1:
         config.add_exception_view(excview, context=Exception)
+    if mask & 2:
+        config.add_exception_view(excview_http, context=HTTPException)
     return config.make_wsgi_app()
 
 
-def get_app(with_excview):
-    k = bool(with_excview)
+def get_app(mask):
+    k = int(mask) & 7
     if k not in _APPS:
         _APPS[k] = build_app(k)
     return _APPS[k]
@@ -297,7 +312,7 @@ def run_request(case):
         try:
             body = app(req.environ, lambda s, h, exc_info=None: status.append((s, dict(h))))
             list(body)
-            src = int(status[0][1].get('X-C13-Src', '0'))
+            src = int(status[0][1].get('X-C13-Src', str(DEFAULT_VIEW)))
             outcome = ['resp', src]
         except Exception as e:
             outcome = ['exc', exc_code(e)]
